@@ -258,7 +258,8 @@ def build(hidden: bool):
         assert ctx.do(1, b'SELECT INBOX').cond == 'OK'
         assert ctx.do(1, b'STORE 2 +FLAGS (\\Deleted)').cond == 'OK'
         assert ctx.do(1, b'EXPUNGE').cond == 'OK'
-        # note: session 0 now sees \Deleted on 102? no: not synced yet.
+        # flags are those of the stored message when it was expunged
+        view[1].flags.add(b'\\deleted')
     return ctx, view
 
 
